@@ -143,3 +143,56 @@ def holds_compare(facts, lhs, op, rhs, elementwise=False):
         if (a, o, b) == (lhs, op, rhs) or (b, _FLIP.get(o), a) == (lhs, op, rhs):
             return node
     return None
+
+
+def paths_to(fn, is_target, unroll=1, eval_test=None, on_extra=None):
+    '''[(path, index_of_target, facts)] for every path that reaches a target statement; facts maps the
+    normalised atom text to its truth value (later tests override earlier ones).'''
+    def on_stmt(s, st):
+        real = getattr(s, '_owner', s)
+        evs = []
+        if on_extra is not None:
+            evs.extend(on_extra(s, st) or ())
+        if is_target(real) or is_target(s):
+            evs.append(Event('target', s))
+        return evs
+    pe = PathEnumerator(fn, on_stmt=on_stmt, unroll=unroll, eval_test=eval_test)
+    out = []
+    for p in pe.paths():
+        idx = p.index(lambda e: e.kind == 'target')
+        if idx < 0:
+            continue
+        facts = {}
+        for e in p.events[:idx]:
+            if e.kind == 'cond':
+                for node, val in decompose(e.node, e.data[0]):
+                    facts[src(node)] = val
+        out.append((p, idx, facts))
+    return out
+
+
+def enclosing_conditions(root):
+    '''Map id(node) -> tuple of (test_text, truth) for every node under root, from enclosing
+    if-statements and conditional expressions (not loops).'''
+    res = {}
+
+    def visit(n, conds):
+        res[id(n)] = conds
+        if isinstance(n, ast.IfExp):
+            visit(n.test, conds)
+            visit(n.body, conds + tuple((src(a), v) for a, v in decompose(n.test, True)))
+            visit(n.orelse, conds + tuple((src(a), v) for a, v in decompose(n.test, False)))
+            return
+        if isinstance(n, ast.If):
+            visit(n.test, conds)
+            ct = conds + tuple((src(a), v) for a, v in decompose(n.test, True))
+            cf = conds + tuple((src(a), v) for a, v in decompose(n.test, False))
+            for s in n.body:
+                visit(s, ct)
+            for s in n.orelse:
+                visit(s, cf)
+            return
+        for c in ast.iter_child_nodes(n):
+            visit(c, conds)
+    visit(root, ())
+    return res
